@@ -14,6 +14,8 @@ import Proofs.VdrPath
 import Proofs.VdrInv
 import Proofs.VdrNonVol
 import Proofs.VdrExample
+import Martian.VdrFs
+import Proofs.VdrFs
 
 namespace Props.C04
 open Martian.Vdr
@@ -92,6 +94,61 @@ theorem nonvolatile_nonsplitting_loses_nothing (c : Cfg) (s0 : St) (evs : List E
   · exact h
   · rw [hsp] at h; cases h
 
+/-! ### uncleaned paths and symbolic links -/
+
+/-- `filepath.Clean` (rooted paths) delivers what `anyOverlap_iff` assumes:
+the result is the root or has no trailing separator. -/
+theorem cleanAbs_clean (p : Path) : cleanAbs p = ['/'] ∨ NoTrailingSlash (cleanAbs p) :=
+  cleanAbs_clean' p
+
+/-- `pathIsInside` on arbitrary spellings (`//`, `/./`, `/../`, trailing `/`)
+decides "equal or below" on the cleaned forms. -/
+theorem pathIsInsideRaw_spec (t p : Path) :
+    pathIsInsideRaw t p = true ↔ (t = p ∨ pathIsInside (cleanAbs t) (cleanAbs p) = true) := by
+  unfold pathIsInsideRaw pathIsInside
+  simp
+
+/-- `anyOverlap` fed with cleaned names (as `getLogicalFileNames` does) detects
+exactly equal / ancestor / descendant, whatever the spelling was. -/
+theorem anyOverlap_cleaned_iff (ns fs : List Path)
+    (hn : ∀ n ∈ ns, cleanAbs n ≠ ['/']) (hf : ∀ f ∈ fs, cleanAbs f ≠ ['/']) :
+    anyOverlap (ns.map cleanAbs) (fs.map cleanAbs) = true ↔
+      ∃ n ∈ ns, ∃ f ∈ fs, Related (cleanAbs n) (cleanAbs f) := by
+  rw [anyOverlap_iff]
+  · constructor
+    · rintro ⟨n, hn', f, hf', r⟩
+      obtain ⟨n0, h0, rfl⟩ := List.mem_map.mp hn'
+      obtain ⟨f0, h1, rfl⟩ := List.mem_map.mp hf'
+      exact ⟨n0, h0, f0, h1, r⟩
+    · rintro ⟨n, hn', f, hf', r⟩
+      exact ⟨_, List.mem_map.mpr ⟨n, hn', rfl⟩, _, List.mem_map.mpr ⟨f, hf', rfl⟩, r⟩
+  · intro n hn'
+    obtain ⟨n0, h0, rfl⟩ := List.mem_map.mp hn'
+    exact (cleanAbs_clean n0).resolve_left (hn n0 h0)
+  · intro f hf'
+    obtain ⟨f0, h1, rfl⟩ := List.mem_map.mp hf'
+    exact (cleanAbs_clean f0).resolve_left (hf f0 h1)
+
+/-- An output that names a symbolic link also names the link's target:
+`getLogicalFileNames` contains it … -/
+theorem logicalNames_target (fs : List FsEnt) (name t : Path) (e : FsEnt)
+    (hclean : cleanAbs name = name) (hf : fsFind fs name = some e) (hl : e.link = some t)
+    (habs : isAbs t = true) : t ∈ logicalNames fs name :=
+  logicalNames_target' fs name t e hclean hf hl habs
+
+/-- … so the argument references the target, and by `kill_safe` the target is
+not removed while the argument is held (a stage that writes its data under
+files/real/ and hands out a link to it keeps the data). -/
+theorem link_target_referenced (c : Cfg) (a : Arg) (fs : List FsEnt) (name t : Path) (e : FsEnt)
+    (hfiles : ∀ x ∈ logicalNames fs name, x ∈ c.filesOf a)
+    (hclean : cleanAbs name = name) (hf : fsFind fs name = some e) (hl : e.link = some t)
+    (habs : isAbs t = true) : refs c a t = true := by
+  have hm : t ∈ c.filesOf a := hfiles t (logicalNames_target fs name t e hclean hf hl habs)
+  unfold refs anyOverlap
+  have hne : (c.filesOf a).isEmpty = false := by
+    rw [List.isEmpty_eq_false_iff_exists_mem]; exact ⟨t, hm⟩
+  simp [hne, hm]
+
 /-! ### non-vacuity -/
 
 /-- the hypotheses of `kill_safe` are satisfiable -/
@@ -125,5 +182,12 @@ example :
     ((run exCfg exSt [.removeEmpty, .cacheMap, .kill, .nodeDone "C", .kill]).disk.map (·.path) =
         ["/p/files/a.txt".toList]) := by
   constructor <;> decide
+
+/-- links, chains and unclean link texts: the model computes what the code computes -/
+example :
+    logicalNames [⟨"/p/f/lnk".toList, some "/p/f/real//x".toList⟩, ⟨"/p/f/real/x".toList, some "y".toList⟩,
+                  ⟨"/p/f/real/y".toList, none⟩] "/p/f/./lnk".toList
+      = ["/p/f/./lnk".toList, "/p/f/lnk".toList, "/p/f/real/y".toList, "/p/f/real/x".toList,
+         "/p/f/real//x".toList] := by decide
 
 end Props.C04
